@@ -109,7 +109,8 @@ Theorem C05_isolation :
 Proof. exact isolation. Qed.
 Print Assumptions C05_isolation.
 
-(* over EVERY history of resize / type change / delete / re-add / acquire / pinned release:
+(* over EVERY history of resize / limit-strategy change / type change / delete / re-add / acquire / pinned
+   release (a schema carries its strategy; only a TYPE change starts a new limiter and a new epoch):
    admitted only while fewer than M of the requests admitted since the schema last became
    max-in-flight are unfinished; rejected only when M of its own are (never because of another
    schema or cluster, never under exempt / no schema) *)
@@ -149,9 +150,11 @@ Proof. vm_compute. repeat split; repeat constructor; eauto. Qed.
 Local Open Scope string_scope.
 (* the old defect history is well-formed, and the model rejects C while B is in flight *)
 Example C05_reconfig_nonvacuous :
-  let ops := [WSync "A" [("x", STb 1000 1000)]; WAcq "A" "x" 1; WSync "A" [("x", SMif 1)];
-              WAcq "A" "x" 2; WRel 1; WAcq "A" "x" 3; WRel 2; WAcq "A" "x" 4] in
-  Forall wf_op ops /\ map snd (model_hist world0 ops) = [0; 2; 0; 2; 0; 1; 0; 2].
+  let ops := [WSync "A" [("x", STb 1000 1000 0)]; WAcq "A" "x" 1; WSync "A" [("x", SMif 1 1)];
+              WAcq "A" "x" 2; WRel 1; WAcq "A" "x" 3; WRel 2; WAcq "A" "x" 4;
+              (* strategy-only change with request 4 in flight: still the same limiter, 5 is rejected *)
+              WSync "A" [("x", SMif 1 3)]; WAcq "A" "x" 5; WRel 4; WAcq "A" "x" 6] in
+  Forall wf_op ops /\ map snd (model_hist world0 ops) = [0; 2; 0; 2; 0; 1; 0; 2; 0; 1; 0; 2].
 Proof.
   split; [|vm_compute; reflexivity].
   repeat constructor; simpl; try tauto; unfold two32; try lia.
